@@ -1,4 +1,148 @@
-/- Model driver for the Pbf format family (C01/C02/C03 parts) — stub. -/
-import Driver.Common
+/-
+Model driver for the PBF parts of C01/C02 (exe model_pbf).  One op per line:
 
-def main : IO Unit := pure ()
+  enc  <opts> | <hdr> | <obj> | <obj> …     → hex of `Pbf.encodeFile` (the writer model)
+  spec <choices> | <hdr> | <obj> | …        → hex of `PbfSpec.encode` (the specification encoder)
+  dec  <ropts> <hex>                        → `ok <dumpHeader> | <dump obj> | …`  or  `err`
+  proj <opts> | <hdr> | <obj> | …           → `ok <dumpHeader> | <dump obj> | …` of `project opts`
+
+<opts>  = D<0|1>M<0..31>H<0|1>L<0|1>   dense, metadata bits (1 version 2 timestamp 4 changeset 8 uid 16 user), history, locations_on_ways
+<ropts> = N<0|1>W<0|1>R<0|1>M<0|1>      entity bits and read_meta
+<hdr>/<obj> = the canonical dump lines of Osmium.Osm (`dumpHeader` / `dump`).
+-/
+import Driver.Common
+import Osmium.Model.Pbf
+import Osmium.Model.PbfSpec
+
+open Osmium Osmium.Osm Osmium.Pbf
+
+namespace PbfDriver
+
+def segs (line : String) : List String := (line.trimAscii.toString.splitOn " | ").map (·.trimAscii.toString)
+
+def bytesOf (s : String) : Option (List UInt8) := Driver.unhex s
+
+def parseLoc (s : String) : Option Location :=
+  match s.splitOn "," with
+  | [x, y] => do pure ⟨← x.toInt?, ← y.toInt?⟩
+  | _ => none
+
+def parseBox (s : String) : Option (Location × Location) :=
+  match s.splitOn ";" with
+  | [a, b] => do pure (← parseLoc a, ← parseLoc b)
+  | _ => none
+
+def parseTag (s : String) : Option Tag :=
+  match s.splitOn "=" with
+  | [k, v] => do pure ⟨← bytesOf k, ← bytesOf v⟩
+  | _ => none
+
+def dropPrefix (s : String) (n : Nat) : String := (s.drop n).toString
+
+def parseMeta (ws : List String) : Option (Meta × List String) :=
+  match ws with
+  | id :: v :: vis :: t :: c :: u :: user :: rest => do
+    let id ← id.toInt?
+    let v ← (dropPrefix v 1).toNat?
+    let t ← (dropPrefix t 1).toNat?
+    let c ← (dropPrefix c 1).toNat?
+    let u ← (dropPrefix u 1).toNat?
+    let user ← bytesOf user
+    let tagWs := rest.takeWhile (·.startsWith "T")
+    let tags ← tagWs.mapM fun w => parseTag (dropPrefix w 1)
+    pure ({ id := id, version := v, visible := vis == "V", timestamp := t, changeset := c, uid := u, user := user, tags := tags },
+          rest.drop tagWs.length)
+  | _ => none
+
+def parseObj (s : String) : Option Object :=
+  match Driver.words s with
+  | "n" :: ws => do
+    let (m, rest) ← parseMeta ws
+    match rest with
+    | [l] => do pure (.node m (← parseLoc (dropPrefix l 1)))
+    | _ => none
+  | "w" :: ws => do
+    let (m, rest) ← parseMeta ws
+    let ns ← rest.mapM fun w =>
+      match (dropPrefix w 1).splitOn "@" with
+      | [r, l] => do pure ({ ref := ← r.toInt?, location := ← parseLoc l } : NodeRef)
+      | _ => none
+    pure (.way m ns)
+  | "r" :: ws => do
+    let (m, rest) ← parseMeta ws
+    let ms ← rest.mapM fun w =>
+      match (dropPrefix w 1).splitOn ":" with
+      | [t, r, role] => do pure (⟨← t.toNat?, ← r.toInt?, ← bytesOf role⟩ : Member)
+      | _ => none
+    pure (.relation m ms)
+  | _ => none
+
+def parseHeader (s : String) : Option Header :=
+  match Driver.words s with
+  | "h" :: g :: hs :: bs => do
+    let g ← bytesOf g
+    let boxes ← bs.mapM fun w => parseBox (dropPrefix w 1)
+    pure { generator := g, boxes := boxes, multipleVersions := hs == "H" }
+  | _ => none
+
+/-- "D1M31H0L0" -/
+def numAfter (s : String) (c : Char) : Option Nat :=
+  match s.splitOn (String.singleton c) with
+  | [_, r] => (r.takeWhile Char.isDigit).toString.toNat?
+  | _ => none
+
+def parseOpts (s : String) : Option Opts := do
+  let d ← numAfter s 'D'
+  let m ← numAfter s 'M'
+  let h ← numAfter s 'H'
+  let l ← numAfter s 'L'
+  pure { dense := d != 0, mdVersion := m % 2 == 1, mdTimestamp := m / 2 % 2 == 1, mdChangeset := m / 4 % 2 == 1,
+         mdUid := m / 8 % 2 == 1, mdUser := m / 16 % 2 == 1, history := h != 0, locationsOnWays := l != 0 }
+
+def parseROpts (s : String) : Option ROpts := do
+  let n ← numAfter s 'N'
+  let w ← numAfter s 'W'
+  let r ← numAfter s 'R'
+  let m ← numAfter s 'M'
+  pure { nodes := n != 0, ways := w != 0, relations := r != 0, readMeta := m != 0 }
+
+/-- `static_cast<int64_t>(fix_to_double(c) * lonlat_resolution)` with IEEE doubles -/
+def cvFloat (c : Int) : Int := (Float.ofInt c / 10000000.0 * 1000000000.0).toInt64.toInt
+
+def dumpAll (h : Header) (os : List Object) : String :=
+  " | ".intercalate (("ok " ++ dumpHeader h) :: os.map dump)
+
+def parseCase (rest : List String) : Option (Header × List Object) :=
+  match rest with
+  | h :: os => do pure (← parseHeader h, ← os.mapM parseObj)
+  | [] => none
+
+def handle (line : String) : String :=
+  match segs line with
+  | [] => "bad-op"
+  | first :: rest =>
+    match Driver.words first with
+    | ["enc", o] =>
+      match parseOpts o, parseCase rest with
+      | some o, some (h, os) => Driver.hex (encodeFile cvFloat o h os)
+      | _, _ => "bad-op"
+    | ["proj", o] =>
+      match parseOpts o, parseCase rest with
+      | some o, some (h, os) => dumpAll (projectHeader cvFloat o h) (os.filterMap (project o))
+      | _, _ => "bad-op"
+    | "spec" :: ch =>
+      match PbfSpec.parseChoices ch, parseCase rest with
+      | some ch, some (h, os) => Driver.hex (PbfSpec.encode ch h os)
+      | _, _ => "bad-op"
+    | ["dec", r, hx] =>
+      match parseROpts r, Driver.unhex hx with
+      | some r, some bs =>
+        match decodeFile noInflate r bs with
+        | some (h, os) => dumpAll h os
+        | none => "err"
+      | _, _ => "bad-op"
+    | _ => "bad-op"
+
+end PbfDriver
+
+def main : IO Unit := Driver.loopPure PbfDriver.handle
